@@ -232,6 +232,8 @@ class Builder:
             spec["cleanup"] = cleanup
         if drop:
             spec["drop"] = True
+        elif self.rng.random() < 0.15:
+            spec["falsy"] = True
         self.services[str(sid)] = spec
         return sid
 
@@ -250,6 +252,8 @@ def rnd_cleanup(rng, flavour):
     if r < 0.3:
         return None
     c = {"sync": rng.randint(0, 3)}
+    if flavour == "asyncio" and rng.random() < 0.25:
+        c["swallow"] = rng.choice([1, 1, 2])
     if flavour == "trio" and rng.random() < 0.5:
         c["shield"] = rng.choice([0.02, 0.1, 0.3])
         c["shield_steps"] = rng.randint(1, 3)
@@ -285,7 +289,7 @@ def rnd_failure(rng, allow_base=True):
     if r < 0.45:
         return ["return", rng.randrange(N_VALUES)]
     if r < 0.9 or not allow_base:
-        return ["raise", rng.randrange(N_EXC_EXCEPTION)]
+        return ["raise", 6 if rng.random() < 0.12 else rng.randrange(N_EXC_EXCEPTION)]      # 6: the falsy CustomError
     return ["raise", rng.randrange(N_EXC_EXCEPTION, N_EXC - 1)]   # SystemExit, CustomBase (GeneratorExit excluded)
 
 
@@ -905,7 +909,7 @@ MIX = {
     "C11": [("overlap", 0.6), ("exec", 0.25), ("lifecycle", 0.15)],
     "C12": [("lifecycle", 0.55), ("stop", 0.2), ("churn", 0.25)],
 }
-N_QUICK = {"C01": 96, "C02": 96, "C03": 80, "C10": 72, "C11": 48, "C12": 56}
+N_QUICK = {"C01": 128, "C02": 96, "C03": 80, "C10": 72, "C11": 48, "C12": 56}
 N_THOROUGH = {"C01": 900, "C02": 900, "C03": 700, "C10": 600, "C11": 400, "C12": 400}
 
 
@@ -925,6 +929,18 @@ def corpus(pid):
                         "helpers": [[["wait_running", 0], ["sleep", 0.2], ["mark", "m"], ["set", "fail"]]],
                         "timeout": 10, "linger": 0.3,
                         "meta": {"family": "fail", "fails": [["p", 0, fl, ["return", vid]]], "immediate": False}})
+        # every kind of exception / each flavour, alone (incl. the falsy CustomError, a group, BaseException subclasses)
+        for eid in range(N_EXC - 1):
+            for fl in FLS:
+                if eid >= N_EXC_EXCEPTION and fl != FLS[eid % 3]:
+                    continue
+                out.append({"runners": [{"accept_delay": 0.05}],
+                            "payloads": {"0": {"flavour": fl, "script": [["wait", "fail"], ["raise", eid]]},
+                                         "1": {"flavour": FLS[(eid + 1) % 3], "script": [["beat", 3000, 0.01]]}},
+                            "services": {}, "main": [["adopt", 0, 0], ["adopt", 0, 1], ["accept", 0]],
+                            "helpers": [[["wait_running", 0], ["sleep", 0.15], ["set", "fail"]]],
+                            "timeout": 10, "linger": 0.3,
+                            "meta": {"family": "fail", "fails": [["p", 0, fl, ["raise", eid]]], "immediate": False}})
         # two flavours failing at the same time, adopted from inside another payload
         out.append({"runners": [{"accept_delay": 0.05}],
                     "payloads": {"0": {"flavour": "asyncio", "script": [["wait", "fail"], ["raise", 0]]},
